@@ -521,6 +521,56 @@ def rename_self(body):
     return ''.join(res)
 
 
+def rename_raw_idents(body, out):
+    """D18: a raw identifier used as a variable (`r#type`) crashes Verus's SMT encoding; variables
+    are renamed to `type_v`.  Field accesses (`x.r#type`), explicit field initialisers (`r#type: e`)
+    keep the field name; a shorthand field (`S { r#type, .. }`) becomes `r#type: type_v`."""
+    mask = code_mask(body)
+    res = []
+    i = 0
+    stack = []
+    pat = re.compile(r'r#([a-z_]+)\b')
+    pos = 0
+    n = 0
+    while pos < len(mask):
+        c = mask[pos]
+        if c in '([{':
+            # a `{` directly after an identifier / path / `>` is a struct literal or pattern
+            j = pos - 1
+            while j >= 0 and mask[j].isspace():
+                j -= 1
+            tok = re.search(r'([A-Za-z_][A-Za-z0-9_]*)\s*$', mask[:j + 1])
+            is_struct = c == '{' and tok is not None and tok.group(1)[0].isupper()
+            stack.append('S' if is_struct else c)
+            pos += 1
+            continue
+        if c in ')]}':
+            if stack:
+                stack.pop()
+            pos += 1
+            continue
+        m = pat.match(mask, pos)
+        if m and (pos == 0 or not (mask[pos - 1].isalnum() or mask[pos - 1] in '_.#')):
+            after = mask[m.end():m.end() + 40].lstrip()
+            name = m.group(1)
+            if after.startswith(':') and not after.startswith('::'):
+                pos = m.end()
+                continue
+            res.append(body[i:pos])
+            if stack and stack[-1] == 'S' and (after.startswith(',') or after.startswith('}')):
+                res.append('r#%s: %s_v' % (name, name))
+            else:
+                res.append('%s_v' % name)
+            n += 1
+            i = pos = m.end()
+            continue
+        pos += 1
+    res.append(body[i:])
+    if n:
+        out.count('D18 raw identifier variable renamed', n)
+    return ''.join(res)
+
+
 BYTESTR = re.compile(r'\*\s*b"((?:[^"\\]|\\.)*)"')
 
 
@@ -1020,10 +1070,7 @@ class Splicer:
     def rewrite_body(self, it, key, ms, spec, fq, mut_self, reserved, raw_params=()):
         out = self.out
         body = it.body
-        for w in raw_params:
-            # shorthand field init `r#type,` keeps the field name; other uses become the new name
-            body = re.sub(r'(?<![.\w])r#%s\b(?=\s*[,}])' % w, 'r#%s: %s_v' % (w, w), body)
-            body = re.sub(r'(?<![.\w#])r#%s\b(?!\s*:)' % w, '%s_v' % w, body)
+        body = rename_raw_idents(body, out)
         for w in reserved:
             bm = code_mask(body)
             body = ''.join(w + '_v' if i % 2 else piece for i, piece in enumerate(re.split(r'\b(%s)\b' % w, body)))
